@@ -56,3 +56,37 @@ Proof.
   cbn [app] in Hd. rewrite app_nil_r in Hd. change (len (@nil Z)) with 0 in Hd. rewrite Hd.
   rewrite val_eqb_refl, Hl, Z.eqb_refl. reflexivity.
 Qed.
+
+(* the same for objects holding references, judged with the whole buffer *)
+Lemma skipn_S_tl {A} : forall n (l : list A), skipn (S n) l = tl (skipn n l).
+Proof. induction n as [|n IH]; intros [|x l]; try reflexivity. cbn [skipn]. rewrite <- IH. reflexivity. Qed.
+Lemma sits_cells_match : forall img m off, sits img m off -> cells_match img (rd m off (len img)) = true.
+Proof.
+  induction img as [|c img IH]; intros m off [H0 [H1 H2]].
+  - unfold rd. cbn. reflexivity.
+  - rewrite len_cons in H1 |- *. unfold rd.
+    assert (Hlt : (Z.to_nat off < length m)%nat) by (pose proof (len_nonneg img); unfold len in *; lia).
+    destruct (skipn (Z.to_nat off) m) as [|b rest] eqn:Es.
+    { exfalso. assert (length (skipn (Z.to_nat off) m) = (length m - Z.to_nat off)%nat) by apply skipn_length. rewrite Es in H. cbn in H. lia. }
+    replace (Z.to_nat (1 + len img)) with (S (Z.to_nat (len img))) by (pose proof (len_nonneg img); lia). cbn [firstn cells_match].
+    assert (Hrest : rest = skipn (Z.to_nat (off + 1)) m).
+    { replace (Z.to_nat (off + 1)) with (S (Z.to_nat off)) by lia. rewrite skipn_S_tl, Es. reflexivity. }
+    assert (Hb : nth_error m (Z.to_nat off) = Some b).
+    { rewrite <- (firstn_skipn (Z.to_nat off) m). rewrite nth_error_app2 by (rewrite firstn_length; lia). rewrite firstn_length, Nat.min_l by lia. rewrite Nat.sub_diag, Es. reflexivity. }
+    assert (IHs : sits img m (off + 1)).
+    { split; [lia|]. split; [lia|]. intros i x Hi. specialize (H2 (S i) x Hi). replace (Z.to_nat (off + 1) + i)%nat with (Z.to_nat off + S i)%nat by lia. exact H2. }
+    specialize (IH m (off + 1) IHs). unfold rd in IH. rewrite <- Hrest in IH.
+    destruct c as [cb|].
+    + specialize (H2 O cb eq_refl). rewrite Nat.add_0_r in H2. assert (cb = b) by congruence. subst. rewrite Z.eqb_refl. exact IH.
+    + exact IH.
+Qed.
+
+Theorem heap_img_ok_complete c img :
+  enc (hc_ty c) (hc_val c) = Some img -> len img = hc_size c -> hc_size c < 2^62 ->
+  sits img (hc_mem c) (hc_off c) -> targets_ok (hc_ty c) (hc_val c) (hc_mem c) (hc_off c) -> heap_img_ok c = None.
+Proof.
+  intros He Hl Hb Hs Ht. unfold heap_img_ok. rewrite He. rewrite Hl, Z.eqb_refl. cbn [negb orb].
+  pose proof (sits_in_range _ _ _ Hs) as Hr. rewrite Hl in Hr. rewrite Hr. cbn [negb].
+  pose proof (sits_cells_match img _ _ Hs) as Hc. rewrite Hl in Hc. rewrite Hc. cbn [negb].
+  unfold heap_ok. rewrite (RT_all _ _ _ _ _ He Hs ltac:(lia) Ht). rewrite val_eqb_refl, Hl, Z.eqb_refl. reflexivity.
+Qed.
